@@ -186,6 +186,24 @@ theorem index_succ (y m d start : Int) (hv : validYmd y m d = true) (hv' : valid
   rw [off_eq _ _ hs, h1]
   split <;> omega
 
+/-- October 1582 (after the `fix:` of `GetIndex`): along the 21 existing days 1..4, 15..31 the index steps by one
+exactly when the new day's weekday is `start` (and `index_first` gives index 1 on the 1st) -/
+theorem index_succ_1582 (d d' start : Int) (hv : validYmd 1582 10 d = true) (hv' : validYmd 1582 10 d' = true)
+    (hd : d' = d + 1 ∨ (d = 4 ∧ d' = 15)) (hs : 0 ≤ start ∧ start ≤ 6) :
+    (SolarWeek.mk 1582 10 d' start).index = (SolarWeek.mk 1582 10 d start).index + (if week 1582 10 d' = start then 1 else 0) := by
+  obtain ⟨hj', _, _⟩ := jdn_comp 1582 10 d' hv'
+  obtain ⟨_, _, a1, a2, a3⟩ := (validYmd_iff_step 1582 10 d).1 hv
+  obtain ⟨_, _, b1, b2, b3⟩ := (validYmd_iff_step 1582 10 d').1 hv'
+  simp only [and_self, if_true] at a3 b3
+  unfold lin comp at hj'
+  simp only [true_and] at hj'
+  unfold SolarWeek.index
+  simp only [true_and]
+  unfold week
+  rw [off_eq _ _ hs, hj']
+  generalize jdn 1582 10 1 = J
+  by_cases c : d > 4 <;> by_cases c' : d' > 4 <;> simp only [c, c', if_true, if_false] <;> split <;> omega
+
 theorem indexInYear_first (y start : Int) (hs : 0 ≤ start ∧ start ≤ 6) : (SolarWeek.mk y 1 1 start).indexInYear = some 1 := by
   have hv : validYmd y 1 1 = true := by
     rw [validYmd_iff_step]
@@ -227,7 +245,23 @@ theorem indexInYear_succ (s r : Solar) (start : Int) (hv : s.valid = true) (h1 :
   · simp only [hc, if_true]; rw [hwk] at hc; omega
   · simp only [hc, if_false]; rw [hwk] at hc; omega
 
-theorem weeksOfMonth_eq_last_index (y m start : Int) : weeksOfMonth y m start = (SolarWeek.mk y m (daysOfMonth y m) start).index := rfl
+/- `weeksOfMonth_eq_last_index` (without the hypothesis `hn`) was true by `rfl` for the old model; after the
+`fix:` of `GetIndex` (October 1582 compressed) it is FALSE for y = 1582, m = 10:
+`weeksOfMonth 1582 10 0 = 4` but `(SolarWeek.mk 1582 10 (daysOfMonth 1582 10) 0).index = (SolarWeek.mk 1582 10 21 0).index = 2`
+(day number 21 is the 11th existing day of that month; the last day is the 31st).
+Strongest true variants: `_partial` (all other months) and `_1582` (October 1582, last day = 31). -/
+theorem weeksOfMonth_eq_last_index_partial (y m start : Int) (hn : ¬ (y = 1582 ∧ m = 10)) :
+    weeksOfMonth y m start = (SolarWeek.mk y m (daysOfMonth y m) start).index := by
+  have hc : ¬ (y = 1582 ∧ m = 10 ∧ daysOfMonth y m > 4) := fun h => hn ⟨h.1, h.2.1⟩
+  unfold weeksOfMonth SolarWeek.index
+  simp only [hc, if_false]
+
+theorem weeksOfMonth_eq_last_index_1582 (start : Int) :
+    weeksOfMonth 1582 10 start = (SolarWeek.mk 1582 10 31 start).index := by
+  have e : daysOfMonth 1582 10 = 21 := by decide
+  unfold weeksOfMonth SolarWeek.index
+  simp only [e]
+  rfl
 
 /-! ## months, seasons, half-years, years -/
 
@@ -481,10 +515,13 @@ def Nat.iterate {α : Sort u} (op : α → α) : Nat → α → α
   | 0, a => a
   | k + 1, a => Nat.iterate op k (op a)
 
-theorem index_eq (y m d start : Int) (hs : 0 ≤ start ∧ start ≤ 6) :
+/- (helper) the unconditional `index_eq` is false after the `GetIndex` fix for October 1582, d > 4
+(e.g. y = 1582, m = 10, d = 15); all uses below are outside October 1582. -/
+theorem index_eq_partial (y m d start : Int) (hs : 0 ≤ start ∧ start ≤ 6) (hn : ¬ (y = 1582 ∧ m = 10)) :
     (SolarWeek.mk y m d start).index = (d + (jdn y m 1 + 7000001 - start) % 7 + 6) / 7 := by
+  have hc : ¬ (y = 1582 ∧ m = 10 ∧ d > 4) := fun h => hn ⟨h.1, h.2.1⟩
   unfold SolarWeek.index week
-  simp only
+  simp only [hc, if_false]
   rw [off_eq _ _ hs]
 
 theorem weeksOfMonth_eq (y m start : Int) (hs : 0 ≤ start ∧ start ≤ 6) :
@@ -508,7 +545,7 @@ theorem in_month_facts (s : Solar) (y m start : Int) (hs : 0 ≤ start ∧ start
   subst ey em
   obtain ⟨_, _, h1, h2⟩ := range_of_valid _ _ _ hv hn
   have hi : (weekOf s start).index = (s.day + (jdn s.year s.month 1 + 7000001 - start) % 7 + 6) / 7 :=
-    index_eq s.year s.month s.day start hs
+    index_eq_partial s.year s.month s.day start hs hn
   refine ⟨jdn_lin _ _ _ hv hn, h1, h2, hi, ?_⟩
   unfold weekPos
   rw [hi]
@@ -532,7 +569,7 @@ theorem sep_step_fwd (start : Int) (hs : 0 ≤ start ∧ start ≤ 6) (k : Nat) 
   have hjn := jdn_nextYm wk.year wk.month hm
   obtain ⟨hn1, hn2, hn3⟩ := nextYm_spec wk.year wk.month 1 hm1 hm2
   have hpos : weekPos wk = (wk.year, wk.month, (wk.day + (jdn wk.year wk.month 1 + 7000001 - start) % 7 + 6) / 7) := by
-    unfold weekPos; rw [← index_eq _ _ _ _ hs, ← hst]
+    unfold weekPos; rw [← index_eq_partial _ _ _ _ hs hn, ← hst]
   have hwom := weeksOfMonth_eq wk.year wk.month start hs
   have hsge := succPos_ge start wk.year wk.month ((wk.day + (jdn wk.year wk.month 1 + 7000001 - start) % 7 + 6) / 7)
   generalize hy' : (nextYm wk.year wk.month 1).1 = y' at *
@@ -685,6 +722,20 @@ theorem jdn_prevYm (y m : Int) (hm : 1 ≤ m ∧ m ≤ 12) :
   rw [e] at h
   exact h
 
+/-- the last day of a month, reached by stepping from the 1st (as `SolarWeek.Next` does after the `fix:`) -/
+theorem last_day_eq (y m : Int) (hm : 1 ≤ m ∧ m ≤ 12) (hn : ¬ (y = 1582 ∧ m = 10)) :
+    (newSolarYmd y m 1).bind (fun f => f.nextDay (daysOfMonth y m - 1)) = some ⟨y, m, daysOfMonth y m, 0, 0, 0⟩ := by
+  have hb := daysOfMonth_bounds y m hm.1 hm.2
+  have hv1 := valid_of_range y m 1 hm hn (by omega) (by omega)
+  have hvl := valid_of_range y m (daysOfMonth y m) hm hn (by omega) (by omega)
+  obtain ⟨e1, hc1v⟩ := newSolarYmd_some y m 1 hv1
+  obtain ⟨_, hclv⟩ := newSolarYmd_some y m _ hvl
+  obtain ⟨r, er, hrv, hj, a1, a2, a3⟩ := nextDay_spec_strong ⟨y, m, 1, 0, 0, 0⟩ (daysOfMonth y m - 1) hc1v
+  have hl := jdn_lin y m _ hvl hn
+  have : r = ⟨y, m, daysOfMonth y m, 0, 0, 0⟩ :=
+    solar_eq_of_jdn r _ hrv hclv (by rw [hj]; simp only [Solar.jdn]; omega) a1 a2 a3
+  rw [e1, Option.bind_some, er, this]
+
 /-- backward loop invariant: the current date `c` lies in the week of the current `week` value, not after it -/
 def SepInvB (start : Int) (c : Solar) (wk : SolarWeek) : Prop :=
   c.valid = true ∧ validYmd wk.year wk.month wk.day = true ∧ wk.start = start ∧
@@ -705,7 +756,7 @@ theorem sep_step_bwd (start : Int) (hs : 0 ≤ start ∧ start ≤ 6) (k : Nat) 
   have hjp := jdn_prevYm wk.year wk.month hm
   obtain ⟨hn1, hn2, hn3⟩ := nextYm_spec wk.year wk.month (-1) hm1 hm2
   have hpos : weekPos wk = (wk.year, wk.month, (wk.day + (jdn wk.year wk.month 1 + 7000001 - start) % 7 + 6) / 7) := by
-    unfold weekPos; rw [← index_eq _ _ _ _ hs, ← hst]
+    unfold weekPos; rw [← index_eq_partial _ _ _ _ hs hn, ← hst]
   have hple := predPos_le start wk.year wk.month ((wk.day + (jdn wk.year wk.month 1 + 7000001 - start) % 7 + 6) / 7)
   generalize hy' : (nextYm wk.year wk.month (-1)).1 = y' at *
   generalize hm' : (nextYm wk.year wk.month (-1)).2 = m' at *
@@ -774,7 +825,8 @@ theorem sep_step_bwd (start : Int) (hs : 0 ≤ start ∧ start ≤ 6) (k : Nat) 
     · rw [if_neg hi1]
       rw [hidx1, hwom'] at hi1
       have hv2 := valid_of_range y' m' (daysOfMonth y' m') ⟨hn1, hn2⟩ hn' (by omega) (by omega)
-      obtain ⟨e2, hc2v⟩ := newSolarYmd_some y' m' _ hv2
+      obtain ⟨_, hc2v⟩ := newSolarYmd_some y' m' _ hv2
+      have e2 := last_day_eq y' m' ⟨hn1, hn2⟩ hn'
       obtain ⟨hj2, _, _, _, hpos2⟩ := in_month_facts ⟨y', m', daysOfMonth y' m', 0, 0, 0⟩ y' m' start hs hv2 rfl rfl hn'
       simp only [e2]
       simp only at hj2
@@ -826,9 +878,11 @@ end Model
 #print axioms Model.daysInMonth_spec
 #print axioms Model.index_first
 #print axioms Model.index_succ
+#print axioms Model.index_succ_1582
 #print axioms Model.indexInYear_first
 #print axioms Model.indexInYear_succ
-#print axioms Model.weeksOfMonth_eq_last_index
+#print axioms Model.weeksOfMonth_eq_last_index_partial
+#print axioms Model.weeksOfMonth_eq_last_index_1582
 #print axioms Model.monthWeeks_length
 #print axioms Model.monthDays_spec
 #print axioms Model.oct1582_21
